@@ -4,9 +4,9 @@
 (* PkgRelation.str / PkgRelation.parse_relations (harness/props/c13.py)    *)
 (* are checked against Format / Parse of PkgRelation.                      *)
 (*                                                                         *)
-(* A trace is one format -> parse -> format execution on a random          *)
-(* structure (deeper than the model-checked space):                        *)
-(*   [r, t, p, warn, exc, t2, same]                                        *)
+(* A trace of kind "rt" is one format -> parse -> format execution on a    *)
+(* random structure (deeper than the model-checked space):                 *)
+(*   [kind, r, t, p, warn, exc, t2, same]                                  *)
 (*   r     the structure given to PkgRelation.str (atoms as in PkgRelation,*)
 (*         payload strings interned to ids)                                *)
 (*   t     the produced string as token codes (independent tokenizer of    *)
@@ -24,6 +24,14 @@
 (*   3 p = r, no warning  (Inverse, NoWarning)                             *)
 (*   4 t2 = t, same       (Stable)                                         *)
 (* <<"ACCEPTED", tid>> is printed for a trace that passes 2, 3 and 4.      *)
+(*                                                                         *)
+(* A trace of kind "probe" (DIAGNOSTIC, a rejection is reported as drift)  *)
+(* is one parse_relations call on a string that is NOT formatter output:   *)
+(* formatter output with the blanks between tokens changed at random and   *)
+(* sometimes a token dropped.  Only step 2 applies: Parse must predict the *)
+(* returned structure, the warning and the exception (IndexError of        *)
+(* parse_archs on a blank architecture list).  It measures how well the    *)
+(* automaton matches the blank tolerance of the real regexes.              *)
 (***************************************************************************)
 EXTENDS PkgRelation, IOUtils, TLCExt
 
@@ -45,27 +53,39 @@ Advance == /\ l' = l + 1
            /\ UNCHANGED <<vars, tid>>
            /\ (Diag => PrintT(<<"AT", tid, l>>))
 
-TFormat == /\ l = 1
+TFormat == /\ Tr.kind = "rt"
+           /\ l = 1
            /\ (Format(Tr.r) # Toks(Tr.t)) => PrintT(<<"REJECT", tid, "format">>)
            /\ Advance
 
-TParse == /\ l = 2
+TParse == /\ Tr.kind = "rt"
+          /\ l = 2
           /\ Tr.exc = ""
           /\ LET p == Parse(Toks(Tr.t))
              IN ~p.exc /\ p.warn = Tr.warn /\ p.rel = Tr.p
           /\ Advance
 
-TInverse == /\ l = 3
+TInverse == /\ Tr.kind = "rt"
+            /\ l = 3
             /\ ~Tr.warn
             /\ Tr.p = Tr.r
             /\ Advance
 
-TStable == /\ l = 4
+TStable == /\ Tr.kind = "rt"
+           /\ l = 4
            /\ Tr.same
            /\ Tr.t2 = Tr.t
            /\ Advance
            /\ PrintT(<<"ACCEPTED", tid>>)
 
-TNext == TFormat \/ TParse \/ TInverse \/ TStable
+TProbe == /\ Tr.kind = "probe"
+          /\ l = 1
+          /\ LET p == Parse(Toks(Tr.t))
+             IN IF Tr.exc # "" THEN p.exc
+                ELSE ~p.exc /\ p.warn = Tr.warn /\ p.rel = Tr.p
+          /\ Advance
+          /\ PrintT(<<"ACCEPTED", tid>>)
+
+TNext == TFormat \/ TParse \/ TInverse \/ TStable \/ TProbe
 TSpec == TInit /\ [][TNext]_tvars
 =============================================================================
